@@ -321,11 +321,12 @@ Section BlockwiseProofs.
     rewrite map_map.
     set (packs := map (fun b => pack (fst (enc b)) (snd (enc b))) buffers).
     rewrite block_start_sum; [|rewrite Hbuf_len; exact Hk|exact Hbuf_full]. fold packs.
+    change bytes with (list N) in *.
     assert (Hstart_le : (length (concat (firstn k packs)) <= length (concat packs))%nat).
     { rewrite <- (firstn_skipn k packs) at 2. rewrite concat_app, app_length. lia. }
     replace (N.of_nat (length (concat packs)) <? N.of_nat (length (concat (firstn k packs)))) with false
       by (symmetry; apply N.ltb_ge; lia).
-    rewrite Nat2N.id, skipn_concat_firstn.
+    rewrite Nat2N.id. rewrite (skipn_concat_firstn (A := N) packs k).
     assert (Hpk : (k < length packs)%nat) by (unfold packs; rewrite map_length, Hbuf_len; exact Hk).
     rewrite <- (firstn_skipn 1 (skipn k packs)), concat_app.
     assert (Hhead : concat (firstn 1 (skipn k packs)) = pack (block_width bk) (block_offsets bk)).
@@ -347,7 +348,7 @@ Section BlockwiseProofs.
       rewrite nth_firstn_lt by exact Hj. rewrite nth_skipn_add. rewrite <- Hij. reflexivity. }
     rewrite unpacker_get_prefix.
     - rewrite bitpack_roundtrip; [|apply block_width_valid|apply block_offsets_below|rewrite block_offsets_length; exact Hjlen].
-      unfold block_offsets at 2.
+      unfold block_offsets.
       rewrite (nth_map_in _ _ _ 0 (0, 0)) by (rewrite enumerate_from_length; exact Hjlen).
       rewrite enumerate_from_nth by exact Hjlen. cbn [fst snd]. rewrite N.add_0_l.
       f_equal. destruct (block_line bk) as [sl ic] eqn:El. cbn [slope intercept].
